@@ -82,11 +82,17 @@ func (s *socket) RecvMsg() (*protocol.Message, error) {
 	// socket.  Later we can look at moving this to priority queues
 	// based on socket pipes.
 
+	var expireQ <-chan time.Time
 	for {
 		s.Lock()
 		timeQ := nilQ
 		if s.recvExpire > 0 {
-			timeQ = time.After(s.recvExpire)
+			if expireQ == nil {
+				// the deadline belongs to the call: armed once, not
+				// again each time the queue is replaced
+				expireQ = time.After(s.recvExpire)
+			}
+			timeQ = expireQ
 		}
 		recvQ := s.recvQ
 		sizeQ := s.sizeQ
